@@ -106,8 +106,8 @@ CLAIMS["C04"]["text"] += (" Properties/C04p.v (Model/PanicOps.v): a panicking Eq
     "a panicking retain closure leaves a valid table (SafeWF and WF) whose contents are: elements visited before the panic and kept (value updated), minus those rejected (each dropped once, in order), plus the panicking element and all unvisited ones untouched; "
     "a panicking extract_if closure leaves a valid table holding everything not yielded, the culprit included. Level C runs these models against the implementation with the k-th closure call panicking.")
 CLAIMS["C04"]["text"] += (" Properties/C04q.v (Model/PanicOps2.v): the iterator handed to HashMap::extend panicking after ANY number p of pairs leaves a well-formed map representing exactly the pre-state plus the first p pairs inserted in order (no old element lost, each old key object kept); "
-    "a panicking Into conversion (K::from(&q)) in the entry_ref API unwinds exactly when the key is absent and leaves the table IDENTICAL to the pre-state, and is never run on a present key. Level C runs both models against the implementation (harness operation `extendp`, arm `intopanic`), level A demands exactly those contents.")
-CLAIMS["C04"]["note"] = COMMON_NOTE + " PARTIAL: the theorems cover panics of the hasher, of destructors, of Clone, of Eq (at the level of the two search functions every operation uses), of the retain / extract_if closures, of the extend iterator and of the Into conversion of entry_ref; panics of the closures handed to entry methods (replace_entry_with, and_modify, or_insert_with) are decided by the fault-injection correspondence, the registry and wf_check on generated histories."
+    "a panicking Into conversion (K::from(&q)) in the entry_ref API unwinds exactly when the key is absent and leaves the table IDENTICAL to the pre-state, and is never run on a present key. A panicking closure handed to replace_entry_with / and_replace_entry_with (HashMap entries and raw_entry_mut, through RawTable::replace_bucket_with) leaves a well-formed map without that key, the removed element released exactly once, and never runs on an absent key; a panicking and_modify closure leaves the table identical. Level C runs these models against the implementation (harness operation `extendp`, arms `intopanic` / `predpanic_nth` on the entry operations), level A demands exactly those contents.")
+CLAIMS["C04"]["note"] = COMMON_NOTE + " PARTIAL: the theorems cover panics of the hasher, of destructors, of Clone, of Eq (at the level of the two search functions every operation uses), of the retain / extract_if closures, of the extend iterator, of the Into conversion of entry_ref and of the closures handed to replace_entry_with / and_replace_entry_with / and_modify; panics of or_insert_with-style default closures (which run before anything is touched) and of Drop inside the owning iterators' consumers are decided by the fault-injection correspondence, the registry and wf_check on generated histories."
 CLAIMS["C07"]["text"] += (" Properties/C07a.v (Proofs/SetOpsFacts.v): the ASSIGNING operators |=, &=, ^=, -= as the loops of set.rs over the TABLE model (every iteration a HashSet operation with real probing, tombstones, growth): from any well-formed left table and any right-hand element list the result is a well-formed table representing exactly the mathematical union / intersection / symmetric difference / difference, element objects included (set2_spec: which stored object survives, which right-hand object is cloned in); collect() of a duplicate-free pipeline output (what |, &, ^, - do) yields a well-formed table holding exactly those elements.")
 CLAIMS["C20"]["text"] += (" Properties/C20a.v (Proofs/SerdeTableFacts.v): the visitors on the TABLE model: with_capacity(cautious(hint)) followed by real inserts yields, for every hint, input and hash function, a well-formed table representing `build items`; an input error after ANY number of elements leaves a valid partial map whose drop releases each element built so far exactly once and its block exactly once with the requested layout (the error path of the property).")
 CLAIMS["C08"]["text"] += (" Properties/C08.v also states the last clause of the property: after shrink_to(m) the table has at most the bucket count (and at most the allocation size) of a fresh with_capacity(max(len, m)) (Proofs/ShrinkBound.v).")
